@@ -161,7 +161,7 @@ class Hist:
                     self.log.append(f'{op} map{mi} make_prism -> {pf.solid.id}')
                 else:
                     new = vmf.make_hollow(Vec(0, 0, 0), Vec(256, 256, 128), thick=rng.choice((8, 16)))
-                    vmf.add_brushes(new)
+                    vmf.add_brushes(b for b in new)  # any iterable, also one that can be consumed only once
                     self.log.append(f'{op} map{mi} make_hollow -> {[b.id for b in new]}')
                 self.nontrivial = self.nontrivial or self.released
             elif op == 'side':
